@@ -1,13 +1,14 @@
 """C10 — path addressing is exact: parse/format, arithmetic, ordering, lookup, traversal, flatten/canonicalize, path sets."""
 import copy, json, os, sys, unicodedata
 from harness.lib import tr as trlib
-from harness.translators import keypath_src
+from harness.translators import keypath_src, keypathset_src
 
 META = dict(
     id='C10',
     model_run='PG.Model.Hier.run',
     model_targets=['Model/KeyPathDigits.vo', 'Model/KeyPath.vo', 'Model/Hier.vo'],
     instance_obligations=['src_is_expected (Proofs/KeyPathMachineLink.v: the programs regenerated from the source of KeyPath.parse / _append_key / path_str / _has_special_chars by harness/translators/keypath_src.py equal the programs the interpreter proofs are about; reflexivity, re-checked every run)',
+                          'src_kps_is_expected (Proofs/KeyPathSetMachineLink.v: the per-entry decisions of _remove_same / _remove_diff / _merge regenerated from the source by harness/translators/keypathset_src.py, incl. deep copy in _merge, copy+update in the copying forms, and the marker constant, equal the data the kernel proofs are about; reflexivity, re-checked every run)',
                           'unicode_digit_table (Model/KeyPathDigits.v equals str.isdigit / int() of the running interpreter on all 1,114,112 code points; re-derived every run)'],
     technique=('Coq proof over an executable model of value_location.py / hierarchical.py (parse state machine, path_str, arithmetic, ordering, '
                'the KeyPathSet trie as the literal dict of dicts, traverse, flatten, canonicalize) + differential correspondence of every modelled '
@@ -27,7 +28,8 @@ META = dict(
     rule=('a case is one modelled operation with its inputs (key list / path string / path pair / KeyPathSet op sequence / nested value); distinct by the '
           'canonical case tree; non-trivial when it has a key with a delimiter, digit or non-ASCII character, a negative or multi-digit integer, '
           'an error outcome, a set sequence with at least 3 ops, or a value of depth >= 2'),
-    trusted_base=['translator harness/translators/keypath_src.py (fail-closed ast reader of KeyPath.parse/_append_key/path_str) and the interpreter of Model/KeyPathMachine.v as the meaning of the recognised statements',
+    trusted_base=['translator harness/translators/keypathset_src.py (fail-closed ast reader of the three KeyPathSet algebra helpers) and the interpreters of Model/KeyPathSetMachine.v',
+                  'translator harness/translators/keypath_src.py (fail-closed ast reader of KeyPath.parse/_append_key/path_str) and the interpreter of Model/KeyPathMachine.v as the meaning of the recognised statements',
                   'extraction: ExtrOcamlBasic only; ocaml/main.ml lexer/printer; cross-checked against vm_compute on a sample',
                   'harness/props/c10.py: generators, implementation driver, canonicalisation of exceptions to small integers',
                   'CPython str.isdigit / int() / str comparison (the digit table is compared with the interpreter on every run)'],
@@ -1074,11 +1076,12 @@ def sweep_set_programs():
 def nontrivial_keys(keys):
   return any((isinstance(k, int) and (k < 0 or k > 9)) or (isinstance(k, str) and (not k.isascii() or any(c in k for c in '.[]-0123456789'))) for k in keys)
 
-GENERATED = {'Gen/KeyPathSrc.v': keypath_src.translate}
+GENERATED = {'Gen/KeyPathSrc.v': keypath_src.translate, 'Gen/KeyPathSetSrc.v': keypathset_src.translate}
 
 def run(ctx):
   vl, hi = py()
   ctx.regen('Gen/KeyPathSrc.v', keypath_src.translate)
+  ctx.regen('Gen/KeyPathSetSrc.v', keypathset_src.translate)
   K = vl.KeyPath
   del ESCAPED[:]
   tab_ok = check_digit_table(ctx)
